@@ -231,6 +231,8 @@ static int recv_events(m_ctx_t *c, int timeout) {
         ev_src_t *p = poll_recv(&c->ppriv, i);
         if (p) {
             M_ASSERT(p->process);
+            /* Do not mistake an errno left behind by a previous user callback for a failure of this event */
+            errno = 0;
             if (!p->mod) {
                 // It is a ctx priv event
                 p = p->process(p, c, i, NULL);
